@@ -141,6 +141,11 @@ package pipeline
 //@       typeis(ret, *UnknownStep) && typeis(err, *warning.Warning) && reports(err, ErrStepTypeInference)
 //@   ensures [nonnil]  usable(err) ==> ret != nil
 //@   ensures [fallback-warned] typeis(ret, *UnknownStep) ==> err != nil
+//@   check [decode-warning-keeps-kind] typeis(local(err), *warning.Warning) && unbox(local(err), *warning.Warning) != nil &&
+//@       old((hk(o, "type") && typeis(typeVal(o), string) && knownType(unbox(typeVal(o), string))) ||
+//@           (!hk(o, "type") && (famCommand(o) || famWait(o) || famInput(o) || hk(o, "trigger") || hk(o, "group")))) ==> !typeis(ret, *UnknownStep)
+//@   check [decode-warning-reported] typeis(local(err), *warning.Warning) && unbox(local(err), *warning.Warning) != nil ==> err != nil
+//@   note [decode-warning-keeps-kind] a warning from decoding (for example a fallback inside a group's nested steps) does not cost the step its kind (C13, C15)
 
 //@ func unmarshalStep
 //@   requires typeis(o, *ordered.Map[string,any]) ==> unbox(o, *ordered.Map[string,any]) != nil && ordered.wf(unbox(o, *ordered.Map[string,any]))
@@ -419,6 +424,9 @@ package pipeline
 //@   ensures [plugins] ret == nil ==> (forall i int :: {c.Plugins[i]} 0 <= i && i < len(c.Plugins) ==> c.Plugins[i].Source == tfT(tf, old(c.Plugins[i].Source)))
 //@   ensures [key-env] ret == nil && typeis(tf, envInterpolator) ==> c.Key == tfT(tf, old(c.Key))
 //@   ensures [key-matrix] typeis(tf, matrixInterpolator) ==> c.Key == old(c.Key)
+//@   ensures [env-err] typeis(tf, envInterpolator) && !old(allOKss(tf, c.Env)) ==> ret != nil
+//@   ensures [key-err] typeis(tf, envInterpolator) && !tfOK(tf, old(c.Key)) ==> ret != nil
+//@   ensures [scalars-err] !tfOK(tf, old(c.Command)) || !tfOK(tf, old(c.Label)) ==> ret != nil
 //@   ensures [env-names-matrix] typeis(tf, matrixInterpolator) ==> (forall k string :: {has(c.Env, k)} has(c.Env, k) == old(has(c.Env, k)))
 //@   ensures [env-values-matrix] ret == nil && typeis(tf, matrixInterpolator) ==> (forall k string :: {c.Env[k]} has(c.Env, k) ==> c.Env[k] == tfT(tf, old(c.Env[k])))
 //@   ensures [matrix-def-matrix] typeis(tf, matrixInterpolator) ==> (forall d string :: {has(c.Matrix.Setup, d)} has(c.Matrix.Setup, d) == old(has(c.Matrix.Setup, d)) && c.Matrix.Setup[d] == old(c.Matrix.Setup[d]))
@@ -466,6 +474,7 @@ package pipeline
 //@ func (*GroupStep).interpolate
 //@   requires g != nil && tf != nil
 //@   assigns @STEPS
+//@   ensures [key-err] !tfOK(tf, old(g.Key)) ==> ret != nil
 
 // ---- C12: matrix interpolation ----
 
